@@ -1,0 +1,92 @@
+//! Verification hooks, compiled only with `--cfg ckb_verif` (see /verif/BUILDING.md).
+//!
+//! A global, lock-protected event sink: every event gets a sequence number under the lock, is
+//! appended as one ndjson line to the file named by `$VERIF_TRACE` (if set) and to an in-memory
+//! buffer (if capturing), so that a harness in the same process can read the events of one step.
+use ckb_types::packed::Byte32;
+use ckb_types::prelude::*;
+use std::io::Write;
+use std::sync::Mutex;
+
+struct Sink {
+    seq: u64,
+    opened: bool,
+    file: Option<std::fs::File>,
+    mem: Option<Vec<String>>,
+}
+
+static SINK: Mutex<Sink> = Mutex::new(Sink {
+    seq: 0,
+    opened: false,
+    file: None,
+    mem: None,
+});
+
+/// Record one event; `fields` is the inside of a JSON object (`"k":v,...`, may be empty).
+pub fn emit(ev: &str, fields: &str) {
+    let mut s = SINK.lock().unwrap_or_else(|e| e.into_inner());
+    if !s.opened {
+        s.opened = true;
+        if let Ok(path) = std::env::var("VERIF_TRACE") {
+            s.file = std::fs::OpenOptions::new()
+                .create(true)
+                .append(true)
+                .open(path)
+                .ok();
+        }
+    }
+    if s.file.is_none() && s.mem.is_none() {
+        return;
+    }
+    s.seq += 1;
+    let th = std::thread::current();
+    let line = format!(
+        "{{\"seq\":{},\"ev\":\"{}\",\"th\":\"{}\"{}{}}}",
+        s.seq,
+        ev,
+        th.name().unwrap_or(""),
+        if fields.is_empty() { "" } else { "," },
+        fields
+    );
+    if let Some(f) = s.file.as_mut() {
+        let _ = writeln!(f, "{line}");
+    }
+    if let Some(m) = s.mem.as_mut() {
+        m.push(line);
+    }
+}
+
+/// Start (clearing the buffer) or stop capturing events in memory.
+pub fn capture(on: bool) {
+    let mut s = SINK.lock().unwrap_or_else(|e| e.into_inner());
+    s.mem = if on { Some(Vec::new()) } else { None };
+}
+
+/// Take the events captured so far.
+pub fn drain() -> Vec<String> {
+    let mut s = SINK.lock().unwrap_or_else(|e| e.into_inner());
+    match s.mem.as_mut() {
+        Some(m) => std::mem::take(m),
+        None => Vec::new(),
+    }
+}
+
+/// Lower-case hex of a byte string.
+pub fn hex(bytes: &[u8]) -> String {
+    let mut o = String::with_capacity(bytes.len() * 2);
+    for b in bytes {
+        o.push_str(&format!("{b:02x}"));
+    }
+    o
+}
+
+/// `"<hex of the hash>"`
+pub fn h(hash: &Byte32) -> String {
+    format!("\"{}\"", hex(hash.as_slice()))
+}
+
+/// `["<hex>",...]` of any iterator of molecule entities (hashes, proposal short ids)
+pub fn list<T: Entity>(items: impl Iterator<Item = T>) -> String {
+    let v: Vec<String> = items.map(|x| format!("\"{}\"", hex(x.as_slice()))).collect();
+    format!("[{}]", v.join(","))
+}
